@@ -11,6 +11,7 @@ ItemSet == {<<"typedef", n, ty>> : n \in TNames, ty \in Types}
       \cup {<<"func", n, sg>> : n \in GNames, sg \in Sigs}
       \cup {<<"macroint", n, v>> : n \in MNames, v \in {1, 2, 1000}}
       \cup {<<"macrodots", n>> : n \in MNames}
+      \cup {<<"sconst", n, v>> : n \in MNames, v \in {1, 1000}}
 Calls == {<<it>> : it \in ItemSet} \cup (IF MaxItems >= 2 THEN {<<a, b>> : a \in ItemSet, b \in ItemSet} ELSE {})
 
 NoCall == [items |-> <<>>, override |-> FALSE, err |-> ""]
